@@ -1,114 +1,13 @@
 ---------------------------- MODULE ConverterInit ----------------------------
 (***************************************************************************)
-(* State machine B: first use of lsprotocol.converters.get_converter from  *)
-(* several threads (C19).                                                   *)
-(*                                                                          *)
-(* _hooks._resolve_forward_references does, per calling thread,             *)
-(*     if not flag:                                   Enter                 *)
-(*         [lock.acquire(); if flag: release, skip]   Acquire / Recheck     *)
-(*         items = list(filter(_filter, MAP.items())) IterStep x KItems     *)
-(*         for cls in items: attrs.resolve_types(cls, MAP, {})  ResolveStep *)
-(*         flag = True                                SetFlag               *)
-(*         [lock.release()]                           Release               *)
-(*     register hooks on the caller's own converter   Hooks                 *)
-(* Iterating MAP raises RuntimeError("dictionary changed size during        *)
-(* iteration") when the dict's size changed since the iteration began, and  *)
-(* the first resolve_types call of the process inserts "__builtins__" into  *)
-(* MAP (eval with MAP as globals).  Locked selects the design with the      *)
-(* double-checked lock (the repaired code) or without it (the original).    *)
-(*                                                                          *)
-(* svHist records the schedule; every maximal behaviour is printed and      *)
-(* forced on the real code by the harness (sys.settrace scheduler).         *)
+(* ConverterInitCore.tla (the state machine and its properties; kept free  *)
+(* of TLC-only modules so that TLAPS can read it, see                       *)
+(* ConverterInitProof.tla) plus what only TLC needs: printing every         *)
+(* maximal schedule for the harness to force on the real code.              *)
 (***************************************************************************)
-EXTENDS Naturals, Sequences, FiniteSets, TLC, Json
+EXTENDS ConverterInitCore, TLC, Json
 
-CONSTANTS Threads,    \* e.g. {"t1", "t2"}
-          KItems,     \* abstract number of dict items visited by the iteration
-          NClasses,   \* abstract number of classes resolved
-          Locked,     \* TRUE: double-checked lock around the resolution
-          EmitHist    \* print maximal histories
-
-VARIABLES svFlag,     \* _resolved_forward_references
-          svVer,      \* 0: MAP has its original size, 1: "__builtins__" has been inserted
-          svLock,     \* "free" or the holder
-          svPc,       \* thread -> control point
-          svIt,       \* thread -> items visited by its iteration
-          svSeen,     \* thread -> dict version when its iteration began
-          svRes,      \* thread -> classes resolved by it
-          svHist      \* the schedule so far: sequence of [t, a]
-cvars == <<svFlag, svVer, svLock, svPc, svIt, svSeen, svRes, svHist>>
-
-Log(t, a) == svHist' = Append(svHist, [t |-> t, a |-> a, pcs |-> [u \in Threads |-> svPc[u]], f |-> svFlag, v |-> svVer])
-
-Init == /\ svFlag = FALSE /\ svVer = 0 /\ svLock = "free"
-        /\ svPc = [t \in Threads |-> "start"]
-        /\ svIt = [t \in Threads |-> 0]
-        /\ svSeen = [t \in Threads |-> 0]
-        /\ svRes = [t \in Threads |-> 0]
-        /\ svHist = <<>>
-
-Enter(t) == /\ svPc[t] = "start"
-            /\ svPc' = [svPc EXCEPT ![t] = IF svFlag THEN "hooks" ELSE IF Locked THEN "acquire" ELSE "iter"]
-            /\ svSeen' = [svSeen EXCEPT ![t] = svVer]
-            /\ Log(t, "Enter")
-            /\ UNCHANGED <<svFlag, svVer, svLock, svIt, svRes>>
-
-Acquire(t) == /\ svPc[t] = "acquire" /\ svLock = "free"
-              /\ svLock' = t
-              /\ svPc' = [svPc EXCEPT ![t] = IF svFlag THEN "release" ELSE "iter"]    \* the re-check under the lock
-              /\ svSeen' = [svSeen EXCEPT ![t] = svVer]
-              /\ Log(t, "Acquire")
-              /\ UNCHANGED <<svFlag, svVer, svIt, svRes>>
-
-IterStep(t) == /\ svPc[t] = "iter"
-               /\ IF svVer # svSeen[t]
-                  THEN /\ svPc' = [svPc EXCEPT ![t] = "dead"]       \* RuntimeError: dictionary changed size during iteration
-                       /\ UNCHANGED svIt
-                  ELSE /\ svIt' = [svIt EXCEPT ![t] = @ + 1]
-                       /\ svPc' = [svPc EXCEPT ![t] = IF svIt[t] + 1 = KItems THEN "resolve" ELSE "iter"]
-               /\ Log(t, "IterStep")
-               /\ UNCHANGED <<svFlag, svVer, svLock, svSeen, svRes>>
-
-ResolveStep(t) == /\ svPc[t] = "resolve"
-                  /\ svVer' = 1                                       \* the first eval inserts __builtins__
-                  /\ svRes' = [svRes EXCEPT ![t] = @ + 1]
-                  /\ svPc' = [svPc EXCEPT ![t] = IF svRes[t] + 1 = NClasses THEN "setflag" ELSE "resolve"]
-                  /\ Log(t, "ResolveStep")
-                  /\ UNCHANGED <<svFlag, svLock, svIt, svSeen>>
-
-SetFlag(t) == /\ svPc[t] = "setflag"
-              /\ svFlag' = TRUE
-              /\ svPc' = [svPc EXCEPT ![t] = IF Locked THEN "release" ELSE "hooks"]
-              /\ Log(t, "SetFlag")
-              /\ UNCHANGED <<svVer, svLock, svIt, svSeen, svRes>>
-
-Release(t) == /\ svPc[t] = "release"
-              /\ svLock' = "free"
-              /\ svPc' = [svPc EXCEPT ![t] = "hooks"]
-              /\ Log(t, "Release")
-              /\ UNCHANGED <<svFlag, svVer, svIt, svSeen, svRes>>
-
-Hooks(t) == /\ svPc[t] = "hooks"
-            /\ svPc' = [svPc EXCEPT ![t] = "done"]
-            /\ Log(t, "Hooks")
-            /\ UNCHANGED <<svFlag, svVer, svLock, svIt, svSeen, svRes>>
-
-Step(t) == Enter(t) \/ Acquire(t) \/ IterStep(t) \/ ResolveStep(t) \/ SetFlag(t) \/ Release(t) \/ Hooks(t)
-Next == \E t \in Threads : Step(t)
-Spec == Init /\ [][Next]_cvars
-FairSpec == Spec /\ \A t \in Threads : WF_cvars(Step(t))
-
-Finished == \A t \in Threads : svPc[t] \in {"done", "dead"}
-
-(***************************************************************************)
-(* Properties of the design.                                                *)
-(***************************************************************************)
-NoError == \A t \in Threads : svPc[t] # "dead"
-\* hooks are only registered once every class is resolved
-HooksOnlyAfterResolved == \A t \in Threads : svPc[t] \in {"hooks", "done"} => svFlag
-\* with the lock at most one thread is inside the critical section
-MutualExclusion == Locked => Cardinality({t \in Threads : svPc[t] \in {"iter", "resolve", "setflag"}}) <= 1
-AllDone == <>(\A t \in Threads : svPc[t] = "done")
+CONSTANT EmitHist    \* print maximal histories
 
 EmitSchedule == IF EmitHist /\ Finished THEN PrintT("@H " \o ToJson(svHist)) ELSE TRUE
 \* the abstract graph (without the history variable) for counting transitions
